@@ -130,7 +130,12 @@ class Pseudo2NetCDF:
         try:
             typecode = pvar.typecode()
         except Exception:
-            typecode = pvar[...].dtype.char
+            try:
+                # the variable's own type: the data of a fully masked
+                # scalar are numpy's float64 masked constant
+                typecode = pvar.dtype.char
+            except Exception:
+                typecode = pvar[...].dtype.char
             if typecode == 'S':
                 # character variables of a netCDF source: 'S' alone would
                 # be a zero-length string type
